@@ -104,8 +104,12 @@ def check(prog, rep):
     md = prog.func("main.py", "main_driver").node
     okmd = "results['missed_residues']" in U(md.body[-1]) and isinstance(md.body[-1], ast.Return)
     r2.add("driver-returns-misses", okmd, f"main_driver returns {U(md.body[-1])[:80]}", f"pdb2pqr/main.py:{md.lineno} (main_driver)")
-    # R2b disjointness in the ligand block
-    lig_app = [c for c in calls_in(nt) if U(c.func) == "lig_atoms.append"]
+    # R2b disjointness in the ligand block (decided by R15 on the model complex when that evaluation is possible)
+    n_rules, n_def = len(rep.rules), len(rep.deferred)
+    from . import shared
+    rep.guarded(shared.rule_ligand_block_model, prog, rep, "R15")
+    block_modelled = len(rep.rules) > n_rules and len(rep.deferred) == n_def
+    lig_app = [] if block_modelled else [c for c in calls_in(nt) if U(c.func) == "lig_atoms.append"]
     for c in lig_app:
         # the atom appended to the ligand hit list must have been taken out of (or never been in) the miss list
         blk = parent(_stmt(c))
@@ -162,6 +166,16 @@ def check(prog, rep):
         for fam in sorted(fams):
             ok = False
             detail = ""
+            verdict = None
+            if fam in ("FLIP", "LP"):
+                try:
+                    verdict = completion_on_model(prog, ci, fam)
+                except AnalysisError:
+                    verdict = None
+            if verdict is not None:
+                ok, detail = verdict
+                r3.add(f"family|{ci.name}:{fam}", ok, detail, wc)
+                continue
             if fam in ("FLIP", "LP"):
                 # fix_* may keep renamed/temporary atoms and set 'fixed', after which finalize() returns early: the
                 # cleanup loop must therefore sit in complete() itself, unguarded
@@ -323,9 +337,21 @@ def check(prog, rep):
                 ("isinstance(residue, aa.CYS) and residue.ss_bonded and atomname == 'HG'", True),
                 ("residue.rebuild_tetrahedral(atomname)", True)}  # the last one: the hydrogen has just been built
     bad_h, n_h = silent_exits(inner[0], closed_h)
-    r5.add("skip-set", not bad_h and n_h >= 3, f"{n_h} exits of the per-hydrogen loop: each is one of the closed reasons (not a hydrogen, already "
-           "present, HG of a bridged cysteine) or is announced by a warning" + (f" -- silent exits: {bad_h}" if bad_h else ""),
-           f"pdb2pqr/biomolecule.py:{inner[0].lineno} (add_hydrogens)")
+    modelled = None
+    try:
+        from .shared import add_hydrogens_on_models
+        modelled = add_hydrogens_on_models(prog)
+    except AnalysisError:
+        modelled = None
+    if modelled is not None:
+        wrong = {k: v for k, v in modelled.items() if v[0] != v[1]}
+        r5.add("skip-set", not wrong, f"add_hydrogens on {len(modelled)} model residues: every missing hydrogen of the template is built except the thiol hydrogen of a "
+               "bridged cysteine, one the tetrahedral completion has just built, and one with fewer than three neighbours present; heavy atoms and atoms already "
+               "present are left alone" + (f" - NOT so (built, expected): {wrong}" if wrong else ""), f"pdb2pqr/biomolecule.py:{inner[0].lineno} (add_hydrogens)")
+    else:
+        r5.add("skip-set", not bad_h and n_h >= 3, f"{n_h} exits of the per-hydrogen loop: each is one of the closed reasons (not a hydrogen, already "
+               "present, HG of a bridged cysteine) or is announced by a warning" + (f" -- silent exits: {bad_h}" if bad_h else ""),
+               f"pdb2pqr/biomolecule.py:{inner[0].lineno} (add_hydrogens)")
     outer = [s for s in ah.body if isinstance(s, ast.For) and U(s.iter) == "self.residues"]
     if not outer:
         raise AnalysisError("add_hydrogens: loop over self.residues not found")
@@ -380,7 +406,6 @@ def check(prog, rep):
     rep.rules[-1].rid = "R11"
     for ob in rep.rules[-1].obs:
         ob.rule = "R11"
-    rep.guarded(shared.rule_ligand_block_model, prog, rep, "R15")
     for fn_, rid_ in ((c07.rule_eof, "R12"),) + (() if grouping else ((c07.rule_flush, "R13"), (c07.rule_models, "R14"))):
         fn_(prog, rep)  # reader stops only at end of file; every pending residue is flushed; only further models are left out
         rep.rules[-1].rid = rid_
@@ -421,3 +446,65 @@ def _all_for(n):
             out.append(p)
         p = parent(p)
     return out
+
+
+def completion_on_model(prog, ci, fam):
+    """complete() of an optimisation class evaluated on a model residue that still holds temporary atoms of the family, with finalize() replaced
+    by a no-op that may have declared the residue fixed (fix_* does so and finalize() then returns early): afterwards no temporary atom may be
+    left - FLIP copies carry their plain names again, lone pairs are gone.  -> (ok, text)."""
+    from ..guards import Flow, Obj
+    from ..objinterp import ObjRunner
+    temp = {"FLIP": ["OD1FLIP", "ND2FLIP", "HD21FLIP"], "LP": ["LP1", "LP2"]}[fam]
+    keep = ["CB", "CG"] if fam == "FLIP" else ["O", "H1"]
+    results = []
+    for fixed in (0, 1):
+        res = Obj({"__class__": "ASN" if fam == "FLIP" else "WAT", "name": "ASN" if fam == "FLIP" else "HOH", "fixed": fixed, "atoms": [], "map": {}})
+        for n in keep + temp:
+            a = Obj({"__class__": "Atom", "name": n, "residue": res, "cell": None, "bonds": []})
+            res["atoms"].append(a)
+            res["map"][n] = a
+        finalized = []
+
+        def extra(runner, interp, call, args, kw, res=res, finalized=finalized):
+            f_ = call.func
+            if isinstance(f_, ast.Attribute):
+                if f_.attr == "finalize" and U(f_.value) == "self":
+                    finalized.append(True)
+                    return None
+                if f_.attr in ("remove_cell", "add_cell"):
+                    return None
+                try:
+                    recv = interp.ev(f_.value)
+                except AnalysisError:
+                    return NotImplemented
+                if recv is res:
+                    if f_.attr == "remove_atom":
+                        atom = res["map"].pop(args[0], None)
+                        res["atoms"][:] = [x for x in res["atoms"] if x is not atom]
+                        return None
+                    if f_.attr == "rename_atom":
+                        atom = res["map"].pop(args[0], None)
+                        if atom is not None:
+                            atom["name"] = args[1]
+                            res["map"][args[1]] = atom
+                        return None
+                    if f_.attr == "get_atom":
+                        return res["map"].get(args[0])
+                    if f_.attr == "has_atom":
+                        return args[0] in res["map"]
+            return NotImplemented
+
+        run = ObjRunner(prog, ci.module.rel, extra_hook=extra)
+        opt = Obj({"__class__": ci.name, "residue": res, "routines": Obj({"__class__": "<routines>", "cells": Obj({"__class__": "<cells>"})}),
+                   "optinstance": None, "atomlist": [], "hbonds": [], "map": {}})
+        try:
+            run.call(opt, "complete")
+        except Flow as fl:
+            return False, f"{ci.name}.complete() stops with {fl.value} on the model residue"
+        names = sorted(a["name"] for a in res["atoms"])
+        want = sorted(keep + ([t_[:-4] for t_ in temp] if fam == "FLIP" else []))
+        results.append((fixed, names, want, bool(finalized)))
+    bad = [f"residue {'already declared fixed' if fx else 'open'}: atoms afterwards {nm}, expected {wt}" + ("" if fin else "; finalize() was not called")
+           for fx, nm, wt, fin in results if nm != wt or not fin]
+    return not bad, (f"{ci.name}.complete() on a model residue holding {temp} (residue open / already declared fixed): " +
+                     ("no temporary atom is left" if not bad else "; ".join(bad)))
